@@ -1102,7 +1102,7 @@ v("d116-spark-coalesce-isnan-any-type", "C16", SP, "            f\" (CASE WHEN t
 NS = "near_sql.py"
 v("m8-cte-key-sorted-columns", "C04", NS, "                    ops_key = f\"{ops_key}_{list(self.columns)}\"", "                    ops_key = f\"{ops_key}_{sorted(self.columns)}\"")
 v("m8-merged-key-names-only", "C04", SM, "                    subsql.ops_key = f\"{subsql.ops_key}.merged({annotation}, {list(subsql.terms.keys())})\"", "                    subsql.ops_key = f\"{subsql.ops_key}.merged({list(subsql.terms.keys())})\"")
-v("m8-polars-join-coalesce-true", "C16", PM, "                how=how,\n                suffix=\"_da_right_tmp\",\n            )", "                how=how,\n                suffix=\"_da_right_tmp\",\n                coalesce=True,\n            )")
+v("m8-polars-join-coalesce-true", "C16", PM, "                how=how,\n                suffix=\"_da_right_tmp\",\n                **_join_order_args,\n            )", "                how=how,\n                suffix=\"_da_right_tmp\",\n                coalesce=True,\n                **_join_order_args,\n            )")
 v("m8-join-keys-rebuilt-as-dict", "C07", VR, "            on=[(va, vb) for (va, vb) in zip(self.on_a, self.on_b)],\n            jointype=self.jointype,", "            on=dict(zip(self.on_a, self.on_b)),\n            jointype=self.jointype,")
 v("m8-twin-join-keys-as-list-zip", "C07", VR, "            on=[(va, vb) for (va, vb) in zip(self.on_a, self.on_b)],\n            jointype=self.jointype,", "            on=list(zip(self.on_a, self.on_b)),\n            jointype=self.jointype,", expect="silent")
 
